@@ -272,12 +272,14 @@ def fetch_selects(step):
     return []
 
 
-def grid_case(opkey, n_part, groups, model_left, window=3, limit=None):
+def grid_case(opkey, n_part, groups, model_left, window=3, limit=None, time_last=False):
     where = []
-    if OPS[opkey][0]:
+    if OPS[opkey][0] and not time_last:
         where.append(OPS[opkey][0])
     pf = ['t.g1 = 7', 't.g2 = 8'][:n_part]
     where += pf
+    if OPS[opkey][0] and time_last:
+        where.append(OPS[opkey][0])          # the time condition as the last (right-most) conjunct
     w = (' WHERE ' + ' AND '.join(where)) if where else ''
     tables = 'mindsdb.tp AS m JOIN int1.tbl1 AS t' if model_left else 'int1.tbl1 AS t JOIN mindsdb.tp AS m'
     sql = f'SELECT * FROM {tables}{w}' + (f' LIMIT {limit}' if limit else '')
@@ -295,9 +297,11 @@ def main_obligations(rep, tier):
     solver_s = 0.0
     for opkey, n_groups, model_left in itertools.product(OPS, (0, 1, 2), (False, True)):
         groups = ['g1', 'g2'][:n_groups]
-        for n_part in range(0, n_groups + 1):
-            oid = f'C15.rows.{opkey}.groups{n_groups}.part{n_part}.{"model-left" if model_left else "model-right"}'
-            sql, kw = grid_case(opkey, n_part, groups, model_left, limit=5)
+        for n_part, time_last in itertools.product(range(0, n_groups + 1), (False, True)):
+            if time_last and (n_part == 0 or OPS[opkey][0] is None):
+                continue            # same text as time_last=False
+            oid = f'C15.rows.{opkey}.groups{n_groups}.part{n_part}.{"model-left" if model_left else "model-right"}' + ('.time-last' if time_last else '')
+            sql, kw = grid_case(opkey, n_part, groups, model_left, limit=5, time_last=time_last)
             try:
                 q = parse_sql(sql)
                 plan = QueryPlanner(q, **kw).from_query()
@@ -375,8 +379,14 @@ def main_obligations(rep, tier):
                                 problem = 'an output time filter appears although the user gave none'
                         else:
                             col_ok = otf is not None and any(isinstance(a, ast.Identifier) and a.parts[-1].lower() == 't' for a in otf.args)
+                            # the user's condition is passed on: same operator and bound (an exact time `= d` is passed as `> d`: the
+                            # forecast rows lie after it; `= LATEST` stays `= LATEST`)
+                            want_op = {'gt': '>', 'ge': '>=', 'eq': '>', 'lt': '<', 'le': '<=', 'between': 'between', 'gt-latest': '>', 'eq-latest': '='}[opkey]
+                            want_args = {'between': ['1000', '2000'], 'gt-latest': ['LATEST'], 'eq-latest': ['LATEST']}.get(opkey, ['1000'])
                             if not col_ok:
                                 problem = f'output time filter {otf} is not the user\'s condition on the order column'
+                            elif str(getattr(otf, 'op', '')).lower() != want_op or [str(a) for a in otf.args if not isinstance(a, ast.Identifier)] != want_args:
+                                problem = f'output time filter is `{otf}`, the user wrote `{OPS[opkey][0]}` (expected operator {want_op!r} with {want_args})'
                     lo = [i for i, s in enumerate(plan.steps) if isinstance(s, LimitOffsetStep)]
                     js = [i for i, s in enumerate(plan.steps) if type(s).__name__ == 'JoinStep']
                     if problem is None and (len(lo) != 1 or plan.steps[lo[0]].limit != 5 or not js or lo[0] < js[-1]):
